@@ -179,7 +179,10 @@ class Obj(Shape):
             vals[k] = s.make(f"{name}.{k}")
             object.__setattr__(obj, k, vals[k])
         c = ctx()
-        c.obj_registry[id(obj)] = ("new", self.cls_ref, list(self.fields))
+        # the witness must describe the PRE-state: remember the initial field values (copies of the
+        # mutable proxies), not the object the code mutates in place
+        init = {k: (v.copy() if hasattr(v, "havoc_inplace") else v) for k, v in vals.items()}
+        c.obj_registry[id(obj)] = ("new", self.cls_ref, init)
         c._keepalive.append(obj)
         return obj
 
@@ -332,6 +335,10 @@ class Contract:
     max_paths: int = 3000
     native_samples: Optional[Callable] = None  # () -> iterable of kwargs dicts for bounded/native runs
     bind: str = "auto"  # how the stub receives args
+    # replay: (args, run) -> list of failure strings; run() calls the real function and returns
+    # ("return", value) or ("raise", exc).  Used instead of evaluating the clauses natively when the
+    # clauses speak about ghost state that has no native counterpart (stream positions)
+    native_oracle: Optional[Callable] = None
     # ghost arguments passed at call sites: callee ref -> lambda(call_index, callee_args, <caller args>) -> {ghost: value}
     ghost_args: Dict[str, Callable] = field(default_factory=dict)
 
